@@ -13,6 +13,10 @@ import Mathlib.Analysis.Calculus.Gradient.Basic
 import Mathlib.Analysis.Calculus.FDeriv.Mul
 import Mathlib.Analysis.Calculus.Deriv.Inv
 import Mathlib.Analysis.Calculus.Deriv.Abs
+import Mathlib.Analysis.Calculus.FDeriv.Pi
+import Mathlib.Analysis.Calculus.Deriv.Pow
+import Mathlib.Analysis.Calculus.Deriv.Mul
+import Mathlib.Analysis.Calculus.Deriv.Add
 import Mathlib.Tactic.Ring
 import Mathlib.Tactic.Linarith
 import Mathlib.Tactic.FieldSimp
@@ -558,3 +562,81 @@ example : (listOps [1/4, 1/4]).inner
       ((listOps [(1/4 : ℚ), 1/4]).sub [1/4, 3] [0, -1]) ((listOps [(1/4 : ℚ), 1/4]).sub [1/4, 3] [0, -1]) :=
   C09.huber_lipschitz (1/2) (by norm_num) _ _ _ (by intro a ha; simp at ha; rcases ha with rfl | rfl <;> norm_num)
 end lists
+
+/-! ### Coordinate-wise leaves: entry derivatives and their lifting to weighted spaces -/
+/-- One entry of `L1Norm`: away from the kink, the coded gradient entry `sign(t)` is the
+derivative of the coded value entry `|t|`. -/
+theorem C09.l1_entry_deriv (t : ℝ) (ht : t ≠ 0) : HasDerivAt (fun s : ℝ => absK s) (signK t) t := by
+  have hf : (fun s : ℝ => absK s) = fun s => |s| := funext absK_eq_abs
+  rw [hf]
+  unfold signK
+  rcases lt_or_gt_of_ne ht with h | h
+  · have : ¬ (0 < t) := not_lt.mpr h.le
+    simp only [this, h, if_true, if_false]
+    exact hasDerivAt_abs_neg h
+  · simp only [h, if_true]
+    exact hasDerivAt_abs_pos h
+
+/-- One entry of `Huber` (`γ > 0`), away from `|t| = γ`: the coded gradient entry is the
+derivative of the coded value entry. -/
+theorem C09.huber_entry_deriv (γ t : ℝ) (hγ : 0 < γ) (ht : |t| ≠ γ) :
+    HasDerivAt (huberVal1 γ) (huberGrad1 γ t) t := by
+  have hval : ∀ s : ℝ, huberVal1 γ s = if γ ≤ |s| then |s| - γ / 2 else s * s * (1 / (2 * γ)) := by
+    intro s
+    unfold huberVal1
+    simp only [hγ, if_true, absK_eq_abs, two, one_add_one_eq_two, abs_mul_abs_self]
+  have hgr : huberGrad1 γ t = if γ ≤ |t| then t / |t| else t / γ := by
+    unfold huberGrad1; simp only [absK_eq_abs]
+  rw [hgr]
+  rcases lt_or_gt_of_ne ht with h | h
+  · -- |t| < γ
+    have hn : ¬ γ ≤ |t| := not_le.mpr h
+    simp only [hn, if_false]
+    have hd : HasDerivAt (fun s : ℝ => s * s * (1 / (2 * γ))) (t / γ) t := by
+      have := ((hasDerivAt_id t).mul (hasDerivAt_id t)).mul_const (1 / (2 * γ))
+      have e : t / γ = (1 * t + t * 1) * (1 / (2 * γ)) := by field_simp; ring
+      rw [e]; exact this
+    refine hd.congr_of_eventuallyEq ?_
+    have hopen : {s : ℝ | |s| < γ} ∈ nhds t :=
+      (isOpen_lt continuous_abs continuous_const).mem_nhds h
+    filter_upwards [hopen] with s hs
+    rw [hval]; simp [not_le.mpr hs]
+  · -- γ < |t|
+    have hn : γ ≤ |t| := h.le
+    simp only [hn, if_true]
+    have ht0 : t ≠ 0 := by
+      intro h0; rw [h0, abs_zero] at h; linarith
+    have hd : HasDerivAt (fun s : ℝ => |s| - γ / 2) (t / |t|) t := by
+      rcases lt_or_gt_of_ne ht0 with h1 | h1
+      · have e : t / |t| = -1 := by rw [abs_of_neg h1, div_neg, div_self ht0]
+        rw [e]; exact (hasDerivAt_abs_neg h1).sub_const (γ / 2)
+      · have e : t / |t| = 1 := by rw [abs_of_pos h1, div_self ht0]
+        rw [e]; exact (hasDerivAt_abs_pos h1).sub_const (γ / 2)
+    refine hd.congr_of_eventuallyEq ?_
+    have hopen : {s : ℝ | γ < |s|} ∈ nhds t :=
+      (isOpen_lt continuous_const continuous_abs).mem_nhds h
+    filter_upwards [hopen] with s hs
+    rw [hval]; simp [le_of_lt hs]
+
+/-- Lifting entries to the space: a weighted separable sum `f(z) = Σᵢ wᵢ·φ(zᵢ)` (L1: `φ = |·|`,
+Huber: `φ = h_γ`, L2²: `φ = t²`; `wᵢ` the weights of `rn` / cell volume) has Fréchet derivative
+`d ↦ Σᵢ wᵢ·φ'(xᵢ)·dᵢ = ⟨φ'(x), d⟩_w`, the weighted pairing with the coded entry-wise gradient. -/
+theorem C09.separable_grad {n : ℕ} (w : Fin n → ℝ) (φ φ' : ℝ → ℝ) (x : Fin n → ℝ)
+    (h : ∀ i, HasDerivAt φ (φ' (x i)) (x i)) :
+    HasFDerivAt (fun z : Fin n → ℝ => ∑ i, w i * φ (z i))
+      (∑ i, (w i * φ' (x i)) • (ContinuousLinearMap.proj i : (Fin n → ℝ) →L[ℝ] ℝ)) x := by
+  have : ∀ i ∈ Finset.univ, HasFDerivAt (fun z : Fin n → ℝ => w i * φ (z i))
+      ((w i * φ' (x i)) • (ContinuousLinearMap.proj i : (Fin n → ℝ) →L[ℝ] ℝ)) x := by
+    intro i _
+    have h1 := ((h i).comp_hasFDerivAt x (hasFDerivAt_apply (𝕜 := ℝ) (F' := fun _ : Fin n => ℝ) i x)).const_mul (w i)
+    refine HasFDerivAt.congr_fderiv h1 ?_
+    rw [smul_smul]
+  exact HasFDerivAt.fun_sum this
+
+/-- Non-vacuity: L1 on `rn(2)` with weights `(1/4, 1/4)` at `x = (1, -2)` (no kink): the
+derivative is the weighted pairing with `sign(x) = (1, -1)`. -/
+example : HasFDerivAt (fun z : Fin 2 → ℝ => ∑ i, (1 / 4 : ℝ) * absK (z i))
+    (∑ i, ((1 / 4 : ℝ) * signK (![1, -2] i)) • (ContinuousLinearMap.proj i : (Fin 2 → ℝ) →L[ℝ] ℝ))
+    ![1, -2] :=
+  C09.separable_grad (fun _ => 1 / 4) (fun s => absK s) signK ![1, -2]
+    (fun i => C09.l1_entry_deriv _ (by fin_cases i <;> simp))
